@@ -572,7 +572,13 @@ func (c *Context) Respond(rw http.ResponseWriter, r *http.Request, produces []st
 	rw.Header().Set(runtime.HeaderContentType, format)
 
 	if resp, ok := data.(Responder); ok {
-		producers := route.Producers
+		var producers map[string]runtime.Producer
+		if route != nil {
+			producers = route.Producers
+		} else {
+			// no matched route: the producers of the offers, as for a plain value
+			producers = c.api.ProducersFor(normalizeOffers(offers))
+		}
 		// producers contains keys with normalized format, if a format has MIME type parameter such as `text/plain; charset=utf-8`
 		// then you must provide `text/plain` to get the correct producer. HOWEVER, format here is not normalized.
 		prod, ok := producers[normalizeOffer(format)]
